@@ -23,10 +23,14 @@ use crate::{
 pub use alu::{AluInput, AluOutput, AluSelect};
 pub use board::{Board, InterruptSource, DAICR, DAISR, DASR};
 pub use bus::{Bus, MISR};
+#[cfg(feature = "verif-hooks")]
+pub use bus::VerifBusState;
 pub use instruction::{Instruction, InstructionRegister};
 pub use microprogram_ram::{MicroprogramRam, Word};
 pub(crate) use raw::Interrupt;
 pub use raw::{RawMachine, Signals, State};
+#[cfg(feature = "verif-hooks")]
+pub use raw::VerifRawState;
 pub use register::{Flags, Register, RegisterNumber};
 
 /// A higher level abstraction over the [`RawMachine`].
